@@ -297,15 +297,53 @@ class Scenario(object):
     def snapshot(self):
         b = self.broker
         s = {'master': dict(b.get_account_cash_balance()), 'ports': {}}
+        # objects the broker handed out earlier (Portfolio objects, the holdings mapping, Position objects, reports) are kept
+        # by this caller, like an application would, and must go on describing the same account
+        handles = self.__dict__.setdefault('_handles', {'pf': {}, 'pos': {}, 'map': {}, 'report': {}, 'n': 0})
+        handles['n'] += 1
+        listing = b.list_all_portfolios()
+        if listing is not None and len(listing) != len(b.portfolios):
+            self.viol(sorted(self.active)[0], 'portfolio-listing', 'list_all_portfolios() has %d entries, the account has %d portfolios'
+                      % (len(listing), len(b.portfolios)))
+        if isinstance(listing, list):
+            del listing[:]                          # the caller's list, emptied by the caller
         for pid in list(b.portfolios.keys()):
             p = b.portfolios[pid]
+            old_p = handles['pf'].setdefault(pid, p)
+            if old_p is not p and (old_p.cash != p.cash or len(old_p.history) != len(p.history)
+                                   or old_p.portfolio_to_dict() != p.portfolio_to_dict()):
+                self.viol(sorted(self.active)[0], 'stale-handle/portfolio', 'the Portfolio object obtained earlier for %s no longer describes '
+                          'that portfolio: cash %r vs %r, %d vs %d history entries' % (pid, old_p.cash, p.cash, len(old_p.history), len(p.history)))
+            mp_ = handles['map'].setdefault(pid, p.pos_handler.positions)
+            now_ = p.pos_handler.positions
+            if mp_ is not now_ and {a: x.net_quantity for a, x in mp_.items() if x.net_quantity != 0} != \
+                    {a: x.net_quantity for a, x in now_.items()}:
+                self.viol(sorted(self.active)[0], 'stale-handle/positions', 'the holdings mapping obtained earlier for %s shows %s, the '
+                          'portfolio holds %s' % (pid, {a: x.net_quantity for a, x in mp_.items()}, {a: x.net_quantity for a, x in now_.items()}))
+            for a, x in now_.items():
+                ox = handles['pos'].get((pid, a))
+                if ox is not None and ox is not x and ox.net_quantity != 0 and (
+                        ox.net_quantity != x.net_quantity or ox.current_price != x.current_price):
+                    self.viol(sorted(self.active)[0], 'stale-handle/position', 'the Position object obtained earlier for %s in %s shows '
+                              'quantity %r price %r, the portfolio\'s position %r / %r' % (a, pid, ox.net_quantity, ox.current_price,
+                                                                                         x.net_quantity, x.current_price))
+                handles['pos'][(pid, a)] = x
+            for k_ in [k_ for k_ in handles['pos'] if k_[0] == pid and k_[1] not in now_]:
+                del handles['pos'][k_]
             report = b.get_portfolio_as_dict(pid)
             kept = {a: dict(d) for a, d in report.items()}
-            # the report is the caller's own copy: what the caller then does with it (here: empties it) is not the broker's
-            # business and must not reach the books
-            for d_ in report.values():
-                d_.clear()
-            report.clear()
+            prev = handles['report'].pop(pid, None)
+            if prev is not None and prev[0] != prev[1]:
+                self.viol(sorted(self.active)[0], 'report-changed-after-it-was-handed-out', 'a holdings report of %s obtained earlier read '
+                          '%s when it was returned and reads %s now' % (pid, prev[1], prev[0]))
+            if handles['n'] % 2:
+                handles['report'][pid] = (report, {a: dict(d) for a, d in report.items()})     # kept as is, looked at next time
+            else:
+                # the report is the caller's own copy: what the caller then does with it (here: empties it) is not the
+                # broker's business and must not reach the books
+                for d_ in report.values():
+                    d_.clear()
+                report.clear()
             s['ports'][pid] = {
                 'cash': b.get_portfolio_cash_balance(pid),
                 'hold': kept,
@@ -526,6 +564,8 @@ class Scenario(object):
             outcome, exc = type(e).__name__, e
         try:
             after = self.snapshot()
+        except Violation:
+            raise
         except Exception as e:
             if any(p in self.active for p in ('C01', 'C02', 'C15')):
                 self.viol(sorted(self.active)[0], 'getter-raised/%s' % type(e).__name__,
@@ -1423,9 +1463,34 @@ class PortfolioScenario(Scenario):
         p = self.pf
         report = p.portfolio_to_dict()
         kept = {a: dict(d) for a, d in report.items()}
-        for d_ in report.values():
-            d_.clear()
-        report.clear()                  # the caller's copy, emptied by the caller
+        handles = self.__dict__.setdefault('_handles', {'pos': {}, 'report': None, 'n': 0, 'map': p.pos_handler.positions})
+        handles['n'] += 1
+        now_ = p.pos_handler.positions
+        if handles['map'] is not now_ and {a: x.net_quantity for a, x in handles['map'].items() if x.net_quantity != 0} != \
+                {a: x.net_quantity for a, x in now_.items()}:
+            self.viol(sorted(self.active)[0], 'stale-handle/positions', 'the holdings mapping obtained earlier shows %s, the portfolio holds %s'
+                      % ({a: x.net_quantity for a, x in handles['map'].items()}, {a: x.net_quantity for a, x in now_.items()}))
+        for a, x in now_.items():
+            ox = handles['pos'].get(a)
+            if ox is not None and ox is not x and ox.net_quantity != 0 and (
+                    ox.net_quantity != x.net_quantity or ox.current_price != x.current_price or ox.total_pnl != x.total_pnl):
+                self.viol(sorted(self.active)[0], 'stale-handle/position', 'the Position object obtained earlier for %s shows quantity %r, price %r, '
+                          'total P&L %r; the portfolio\'s position %r / %r / %r' % (a, ox.net_quantity, ox.current_price, ox.total_pnl,
+                                                                                   x.net_quantity, x.current_price, x.total_pnl))
+            handles['pos'][a] = x
+        for a in [a for a in handles['pos'] if a not in now_]:
+            del handles['pos'][a]
+        prev = handles['report']
+        handles['report'] = None
+        if prev is not None and prev[0] != prev[1]:
+            self.viol(sorted(self.active)[0], 'report-changed-after-it-was-handed-out', 'a holdings report obtained earlier read %s when it was '
+                      'returned and reads %s now' % (prev[1], prev[0]))
+        if handles['n'] % 2:
+            handles['report'] = (report, {a: dict(d) for a, d in report.items()})
+        else:
+            for d_ in report.values():
+                d_.clear()
+            report.clear()                  # the caller's copy, emptied by the caller
         return {'master': {'USD': 0.0, 'GBP': 0.0, 'EUR': 0.0}, 'ports': {'P': {
             'cash': p.cash,
             'hold': kept,
